@@ -6,7 +6,7 @@
     bit-for-bit equality of every coordinate, in order.  The zig-zag, interleaving,
     (si,ti)->(pi,qi) and cell-centre detection functions are the translations of the Go source. *)
 From Coq Require Import ZArith List Floats.
-From Geo Require Import Base.GoPrim Base.Bytes Gen.Codec Model.Codec.
+From Geo Require Import Base.GoPrim Base.Bytes Gen.CellID Gen.Codec Model.Codec.
 From Geo Require Import Proofs.C09_Prims Proofs.C09_Interleave Proofs.C09_Lossless Proofs.C09_Compressed Proofs.C09_Exact.
 Import ListNotations.
 Local Open Scope Z_scope.
@@ -49,15 +49,17 @@ Print Assumptions roundtrip_rect.
 Theorem roundtrip_cellid : forall id, 0 <= id < 2 ^ 64 -> decode_cellid (encode_cellid id) = Ok id.
 Proof. exact C09_Lossless.roundtrip_cellid. Qed.
 Print Assumptions roundtrip_cellid.
-Theorem roundtrip_cell : forall id, 0 <= id < 2 ^ 64 -> decode_cell (encode_cell id) = Ok id.
+(** Cell.Decode accepts valid ids only (8beed88) *)
+Theorem roundtrip_cell : forall id, 0 <= id < 2 ^ 64 -> s2_CellID_IsValid id = true -> decode_cell (encode_cell id) = Ok id.
 Proof. exact C09_Lossless.roundtrip_cell. Qed.
 Print Assumptions roundtrip_cell.
-(** guard = the decoder's documented limit (the encoder has none: see the refutation below) *)
-Theorem roundtrip_cellunion : forall ids, Forall (fun id => 0 <= id < 2 ^ 64) ids ->
+(** guards = valid cell ids (847439f) and the decoder's documented limit (the encoder has none: see the refutation below) *)
+Theorem roundtrip_cellunion : forall ids, Forall cellid_ok ids ->
   len ids <= s2_CellUnion_decode_maxCells -> decode_cellunion (encode_cellunion ids) = Ok ids.
 Proof. exact C09_Lossless.roundtrip_cellunion. Qed.
 Print Assumptions roundtrip_cellunion.
-Theorem roundtrip_polyline : forall ps, Forall point_ok ps -> len ps <= s2_maxEncodedVertices ->
+(** vertices of polylines and loops: finite coordinates (4fc5f5f), any other bit pattern *)
+Theorem roundtrip_polyline : forall ps, Forall vertex_ok ps -> len ps <= s2_maxEncodedVertices ->
   decode_polyline (encode_polyline ps) = Ok ps.
 Proof. exact C09_Lossless.roundtrip_polyline. Qed.
 Print Assumptions roundtrip_polyline.
@@ -96,40 +98,38 @@ Proof. exact encode_deterministic. Qed.
 Print Assumptions encode_twice_same_bytes.
 
 (** * The float exactness step, under the named hypotheses *)
-(** a vertex the encoder treated as a cell centre comes back [==] in every coordinate *)
-Theorem snapped_vertex_go_equal : H_piqi_exact -> H_f64_frombits_bits ->
-  forall p level, x_level (xyz_face_siti p) = level -> 0 <= level ->
-  r3_Vector_eqb (vec_of_point p) (vec_of_point (recon level (xyz_face_siti p))) = true.
-Proof. exact snapped_vertex_feq. Qed.
-Print Assumptions snapped_vertex_go_equal.
-
-(** and bit for bit unless one of its coordinates is a zero *)
-Theorem vertex_bit_identical : H_piqi_exact -> H_f64_eqb_bits ->
-  forall p level, point_ok p -> nonzero_coords p -> 0 <= level -> recon level (xyz_face_siti p) = p.
+(** every vertex, snapped or not, comes back bit for bit *)
+Theorem vertex_bit_identical : H_piqi_exact -> H_f64_bits_frombits ->
+  forall p level, vertex_ok p -> 0 <= level -> recon level (xyz_face_siti p) = p.
 Proof. exact vertex_exact. Qed.
 Print Assumptions vertex_bit_identical.
 
-(** the property for polygons: both formats, every loop with at least one vertex, no zero coordinate *)
-Theorem roundtrip_polygon_bit_identical : H_piqi_exact -> H_f64_eqb_bits ->
-  forall p bs, polygon_ok p ->
-  Forall (fun l => l_vertices l <> [] /\ Forall nonzero_coords (l_vertices l)) (p_loops p) ->
+(** the property for polygons: both formats, every loop with at least one vertex *)
+Theorem roundtrip_polygon_bit_identical : H_piqi_exact -> H_f64_bits_frombits ->
+  forall p bs, polygon_ok p -> Forall (fun l => l_vertices l <> []) (p_loops p) ->
   encode_polygon p = Some bs ->
   decode_polygon bs = Ok (DLossless p) \/ decode_polygon bs = Ok (DCompressed (map cloop_of_loop (p_loops p))).
 Proof. exact roundtrip_polygon_exact. Qed.
 Print Assumptions roundtrip_polygon_bit_identical.
 
-(** * FINDINGS on the unchanged tree: where "every encodable value" fails *)
-(** the sign of a zero coordinate of a face centre is lost (xyzToFaceSiTi compares with ==) *)
-Theorem compressed_zero_sign_refuted :
+(** face centres written with +0 (repaired by d20845c): the replay round-trips bit for bit *)
+Theorem compressed_zero_sign_roundtrip :
   polygon_ok face_centre_triangle /\
-  encode_polygon face_centre_triangle = Some [4; 0; 1; 3; 8; 6; 7; 0; 0; 0; 0; 0] /\
-  decode_polygon [4; 0; 1; 3; 8; 6; 7; 0; 0; 0; 0; 0] =
-    Ok (DCompressed [mkcloop [(9223372036854775808, 9223372036854775808, 4607182418800017408);
-                              (4607182418800017408, 0, 0);
-                              (9223372036854775808, 4607182418800017408, 0)] false 0 None]).
-Proof. exact zero_sign_refuted. Qed.
-Print Assumptions compressed_zero_sign_refuted.
+  exists bs, encode_polygon face_centre_triangle = Some bs /\
+             decode_polygon bs = Ok (DCompressed (map cloop_of_loop (p_loops face_centre_triangle))).
+Proof. exact zero_sign_roundtrip. Qed.
+Print Assumptions compressed_zero_sign_roundtrip.
 
+(** before d20845c: == accepted (0,0,1) as the centre of face 2, reconstructed as (-0,-0,1) *)
+Theorem compressed_zero_sign_old_refuted :
+  let p := (0, 0, 4607182418800017408) in
+  let c := s2_facePiQitoXYZ 2 0 0 0 in
+  r3_Vector_eqb (vec_of_point p) c = true /\ point_of_vec c = (9223372036854775808, 9223372036854775808, 4607182418800017408)
+  /\ x_level (xyz_face_siti p) = -1.
+Proof. exact zero_sign_old_refuted. Qed.
+Print Assumptions compressed_zero_sign_old_refuted.
+
+(** * FINDINGS on the unchanged tree: where "every encodable value" fails *)
 (** a loop without vertices does not survive the compressed format *)
 Theorem compressed_zero_vertex_loop_refuted :
   polygon_ok zero_vertex_polygon /\
